@@ -15,7 +15,7 @@ EXPECTED = os.path.join(os.path.dirname(os.path.abspath(__file__)), "facts", "C1
 META = dict(
     engine="E-CHAIN + E-FACTS",
     technique="Lean 4 proof with the runtime's freedoms (map iteration order per range site, wall clock) as explicit oracle arguments + regenerated source facts (every map range / time.Now / go / select / rand site of the consensus-path packages, classified) + repeated execution of generated chain data in fresh processes of the real PocketCoreApp",
-    level_text="Kernel-checked: code whose map-range sites are order-invariant and whose clock reads are dead computes the same state for all oracles, for whole histories (block_indep_of_oracles, history_indep_of_oracles), with the per-site lemmas for the shapes that occur (commuting folds, sorted-before-use, any/all, unique lookup); NormalizeRewardDelegators fails or succeeds independently of the order and SplitNodeRewards leaves every balance the same (split_perm_balances). The property is proved FALSE of the code as it is at store level and for the wall clock: iavl_insert_order_matters, split_perm_apphash_fails, genesis_map_order_apphash_fails, unjail_depends_on_now (with unjail_indep_of_now_partial: exactly nodes whose clock is behind the block time are affected). Tie: the site list is regenerated from the working tree on every run and must equal the classified list (a new or moved site breaks the tie); the real SplitNodeRewards/NormalizeRewardDelegators are compared with the model on generated inputs; each generated history (exact transaction bytes generated once) is executed 5 times in fresh processes and compared block by block.",
+    level_text="Kernel-checked: code whose map-range sites are order-invariant and whose clock reads are dead computes the same state for all oracles, for whole histories (block_indep_of_oracles, history_indep_of_oracles), with the per-site lemmas for the shapes that occur (commuting folds, sorted-before-use, any/all, unique lookup). For the code as it is now the reward split (NormalizeRewardDelegators sorts by address: split_order_indep — recipients, amounts and ORDER of the payments are oracle independent, hence account-creation order, tree shape and app hash), InitGenesis over the genesis maps (genesisSite_oracleFree) and the unjail check (no clock read: unjailSite_oracleFree, unjail_indep_of_now) are oracle-free at store level, and a block composed of them and arbitrary deterministic code is (consensus_sites_indep). The counterexamples for the code before the fixes are kept as historical_* theorems. Tie: the site list is regenerated from the working tree on every run and must equal the classified list (a new or moved site, a removed sort, or any time.Now outside the dead-clock/off-consensus classes breaks the tie); the real SplitNodeRewards/NormalizeRewardDelegators are compared with the model on generated inputs including the ORDER of the callbacks; each generated history (exact transaction bytes generated once) is executed 5 times in fresh processes and compared block by block.",
     level_note="PARTIAL: the Go runtime itself (scheduler, map hashing, time) is represented by oracle parameters; independence from the oracle is proved for the classified shapes, the runtime is only exercised (5 processes per history; the iterator goroutine of store/iavl is exercised, not modelled). The classification of each site (which lemma shape it has, whether it is on the consensus path) is a reviewed judgement recorded in checks/facts/C12.expected.json, not a proof about Go source. The site extractor is syntactic with a repository-wide symbol table; it was compared once with a go/types run (identical 105 sites; the go/types run takes ~28 min offline and is not part of the check). Trusted: Lean kernel (propext, Classical.choice, Quot.sound), harness/driver parser.",
 )
 
@@ -27,12 +27,14 @@ def run(ctx):
              "and rewards from {0,-5,1,7,99,100,101,12345,1e9+7,1e12-1} through the real NormalizeRewardDelegators/SplitNodeRewards; (b) histories executed 5 times in fresh processes: "
              "generic (chain.World.GenBlock, 4-11 blocks; block 1 runs every module's ConvertState in map order), delegators (proposer edit-stakes with 4 reward delegators without "
              "accounts, then fee-paying blocks: the proposer reward is split by Keeper.blockReward), genesismaps (6 signing infos / missed-block arrays for addresses without a validator "
-             "in the genesis maps), unjail (JailedUntil 15 s after the check starts, block time >= JailedUntil, half of the runs start after it has passed); "
+             "in the genesis maps), and — thorough tier and search stage only — unjail (JailedUntil 15 s after the check starts, block time >= JailedUntil, half of the runs start after it has passed); "
              "non-trivial = non-empty delegator map / every block line; distinct = distinct trace line")
     ctx.trust("repeat runs differ only in process (Go map seeds, goroutine scheduling) and, for the unjail history, start time")
     ctx.assume("5 executions per history sample the runtime's choices; they do not enumerate them")
     n = 60 if ctx.thorough else 8
-    args = ["-pure", "20000" if ctx.thorough else "400"]
+    # the wall-clock history waits ~20 s for real time to pass: thorough tier (and search stage) only,
+    # now that no consensus code reads the clock (pinned by the facts check above)
+    args = ["-pure", "20000"] if ctx.thorough else ["-pure", "400", "-no-unjail"]
     ctx.stream("repeat", "c12", "Driver/C12.lean", n=n, args=args, timeout=3000)
     if ctx.thorough:
         ctx.stream("repeat-s1", "c12", "Driver/C12.lean", n=40, seed=ctx.seed * 1000 + 47, args=["-pure", "20000", "-repeats", "8"], timeout=3000)
